@@ -65,6 +65,7 @@ type rcase struct {
 	Input   string     `json:"input,omitempty"`
 	Queries []string   `json:"queries,omitempty"`
 	ZSON    [][]string `json:"zson,omitempty"`
+	XCase   *xcase     `json:"xcase,omitempty"`
 }
 
 func (c *ocase) replay(check string) *rcase {
@@ -196,11 +197,11 @@ func kindClass(id int) int {
 // ---- worker -----------------------------------------------------------------------------------
 
 type wReq struct {
-	Op      string     `json:"op"` // ops | lake | vcompile
-	Types   []*TSpec   `json:"types,omitempty"`
-	Objects [][]rrec   `json:"objects,omitempty"`
-	Queries []string   `json:"queries,omitempty"`
-	Input   string     `json:"input,omitempty"`
+	Op      string   `json:"op"` // ops | lake | vcompile
+	Types   []*TSpec `json:"types,omitempty"`
+	Objects [][]rrec `json:"objects,omitempty"`
+	Queries []string `json:"queries,omitempty"`
+	Input   string   `json:"input,omitempty"`
 	// Parallelism > 0: lake queries run with this many scan legs (compiler.NewLakeQuery)
 	Parallelism int `json:"parallelism,omitempty"`
 }
